@@ -90,7 +90,8 @@ PROPS = {
     'C11': {
         'source_transfer': ['TransferUbx'],
         'source_tie': ['UbxParser'],
-        'jobs': [{'component': 'ubx', 'profile': 'ops', 'quick': 3000, 'thorough': 6000, 'exhaustive': 'thorough'}],
+        'jobs': [{'component': 'ubx', 'profile': 'ops', 'quick': 3000, 'thorough': 6000, 'exhaustive': 'thorough'},
+                 {'component': 'cid', 'profile': 'grid', 'quick': 1, 'thorough': 1}],
         'trusted': PARSER_TRUST + ['object identity of payload buffers: explicit heap model (Model/HeapParser), tied by re-reading every '
                                    'handed-out payload object at the end of each history'],
     },
@@ -151,7 +152,8 @@ PROPS = {
     },
     'C04': {
         'jobs': [{'component': 'srv', 'profile': 'mixed', 'quick': 4000, 'thorough': 8000, 'project': 'result'},
-                 {'component': 'seq', 'profile': 'seq', 'quick': 1000, 'thorough': 2500, 'project': 'result'}],
+                 {'component': 'seq', 'profile': 'seq', 'quick': 1000, 'thorough': 2500, 'project': 'result'},
+                 {'component': 'cid', 'profile': 'grid', 'quick': 1, 'thorough': 1}],
         'trusted': ['back end = scripted stub (oracle-style per receive call, and buffered with arrival time-lines); virtual clock ticks/1024 s'],
         'assumptions': ['partial: the transports are stubs; every blocking receive advances the clock by at least one tick'],
     },
@@ -168,7 +170,8 @@ PROPS = {
         'assumptions': ['partial: as C04; "in time" = the bytes are delivered by receive calls that start before the deadline'],
     },
     'C10': {
-        'jobs': [{'component': 'seq', 'profile': 'seq', 'quick': 2400, 'thorough': 6000, 'project': 'result+sent+calls'}],
+        'jobs': [{'component': 'seq', 'profile': 'seq', 'quick': 2400, 'thorough': 6000, 'project': 'result+sent+calls'},
+                 {'component': 'cid', 'profile': 'grid', 'quick': 1, 'thorough': 1}],
         'trusted': ['the buffered stub implements the contract of _flush_input(): what has arrived and was not read is dropped'],
         'assumptions': ['partial: claimed for the base class over a back end whose _flush_input() honours its contract (the serial one); '
                         'the gpsd back end inherits the no-op'],
